@@ -172,6 +172,27 @@ func scenarioC18(c *hlib.RunCtx) *hlib.Violation {
 				if dst == src || isPrefixConflict(dst) {
 					continue
 				}
+				if _, stored := model[dst]; !stored && t.Bool(1, 4) {
+					// a copy from an object that is not there (lost between a listing and the
+					// copy) fails, and stores nothing: the name it was to be copied to still
+					// reads not-exist
+					ghost := genName()
+					if _, there := model[ghost]; !there && !isPrefixConflict(ghost) && ghost != dst {
+						if err := Copy(ctx, bh.Object(dst), bh.Object(ghost)); err == nil {
+							fail("absent-read", "copying absent object %q to %q succeeded", ghost, dst)
+							break
+						}
+						if r, err := bh.Object(dst).NewReader(ctx); !errors.Is(err, ErrObjectNotExist) {
+							if r != nil {
+								r.Close()
+							}
+							fail("absent-read", "after a failed copy from absent object %q, reading %q (never stored): err=%v, want not-exist", ghost, dst, err)
+							break
+						}
+						s.Probe("copy-from-absent-object")
+						continue
+					}
+				}
 				if err := Copy(ctx, bh.Object(dst), bh.Object(src)); err != nil {
 					fail("write-failed", "copying %q to %q: %v", src, dst, err)
 					break
